@@ -236,6 +236,12 @@ fn ctype_value(ct: &str, enc: &str, rng: &mut Rng) -> Option<String> {
         "exact" | "json" => Some(base.to_string()),
         "params" | "jsonparams" => Some(format!("{base}{}", ["; charset=utf-8", ";charset=UTF-8", "; v=1"][(rng.0 % 3) as usize])),
         "other" => Some(["text/plain", "application/xml", "application/jsonx", "application/cbor"][(rng.0 % 4) as usize].to_string()),
+        "near" => {
+            let sub = if enc == "smile" { "x-jackson-smile" } else { "json" };
+            let v = [format!("application/{sub}+xml"), format!("application/{sub}+json"), format!("text/{sub}"), format!("application/{sub}-seq"),
+                     format!("application/vnd.api+{sub}"), format!("application/{sub}+xml; charset=utf-8")];
+            Some(v[(rng.0 % 6) as usize].clone())
+        }
         "octet" => Some("application/octet-stream".to_string()),
         "wildcard" => Some(["*/*", "application/*"][(rng.0 % 2) as usize].to_string()),
         "garbage" => Some(["garbage", "", "/", "application/"][(rng.0 % 4) as usize].to_string()),
